@@ -47,9 +47,9 @@ impl Check for C06 {
     }
     fn cases(&self, thorough: bool) -> usize {
         if thorough {
-            1_500_000
+            10_000_000
         } else {
-            60_000
+            150_000
         }
     }
     fn generate(&self, d: &mut Dec, thorough: bool) -> Case {
